@@ -122,3 +122,40 @@ def c16_tables(repo):
 
 
 table(c16_tables)
+
+
+# ---------------------------------------------------------------- C02: token types and the tokeniser's keyword table
+def c02_tables(repo):
+    import ast
+    tree = _module(repo, "antismash/common/hmm_rule_parser/rule_parser.py")
+    types = {}
+    for node in tree.body:
+        if isinstance(node, ast.ClassDef) and node.name == "TokenTypes":
+            for sub in node.body:
+                if isinstance(sub, ast.Assign) and len(sub.targets) == 1 and isinstance(sub.targets[0], ast.Name):
+                    val = ast.literal_eval(sub.value)
+                    if not isinstance(val, int):
+                        raise TableError("TokenTypes member is not an int literal")
+                    types[sub.targets[0].id] = val
+    if not types:
+        raise TableError("TokenTypes not found")
+    mapping = _find_assign(tree, "mapping", cls="Tokeniser")
+    if not isinstance(mapping, ast.Dict):
+        raise TableError("Tokeniser.mapping is not a dict display")
+    pairs = []
+    for key, val in zip(mapping.keys, mapping.values):
+        text = ast.literal_eval(key)
+        if not (isinstance(val, ast.Attribute) and isinstance(val.value, ast.Name) and val.value.id == "TokenTypes"
+                and val.attr in types and isinstance(text, str) and text and all(ord(c) < 128 for c in text)):
+            raise TableError("Tokeniser.mapping entry is not 'ascii text': TokenTypes.NAME")
+        pairs.append((text, types[val.attr]))
+    out = ["(* --- C02: antismash/common/hmm_rule_parser/rule_parser.py --- *)\n"]
+    for name in sorted(types, key=lambda n: types[n]):
+        out.append(f"Definition c02_T_{name} : Z := {types[name]}.\n")
+    out.append("Definition c02_token_mapping : list (list Z * Z) := [" +
+               "; ".join("([" + "; ".join(str(c) for c in codes(text)) + f"], {val})" for text, val in pairs) + "].\n")
+    out.append("\n")
+    return "".join(out), {"c02_token_types": types, "c02_mapping": dict(pairs)}
+
+
+table(c02_tables)
